@@ -79,6 +79,16 @@ CHECKS = {
              'model assumes (front end is a function of its arguments; check_syntax/cnl_to_json blind to the auto-link flag). The interpreter\'s '
              'hash seed is exercised (random seed per history), not modelled. Two genuine defects were repaired by fix: commits c710714, 36930bb.',
         design='DESIGN.md §6 C12'),
+    'C10': dict(
+        technique='Lean 4 proof of refinement to a per-sentence fold (for any sentence behaviour) + boundary-state monitors on the real objects; prefix/removal/context differential',
+        text='Lean theorems, parametric in what a sentence does: if the scratch state is reset at every sentence boundary the implementation '
+             'is the fold of a per-sentence function over the environment (signatures, constants, emitted temporal concepts); prefix law, '
+             'removal law (a sentence that leaves the environment unchanged removes exactly its rules), order law.',
+        note='Trusted: Lean kernel; the monitors of harness/props/c10.py on the real CNLTransformer/ASPConverter (scratch state equals its '
+             'initial value after every sentence-level callback / at the start of every proposition; signatures free of per-occurrence marks), '
+             'which establish the hypotheses ResetsAtBoundary and "the environment is the table" on every monitored compilation, not for '
+             'all inputs. A genuine defect was repaired by fix: commit ed2f68f (is_final kept in signatures).',
+        design='DESIGN.md §6 C10'),
 }
 
 NOT_YET = {}
